@@ -775,6 +775,13 @@ class StrBase:
     def __reduce_ex__(self, protocol):
         import copyreg
 
+        # object.__reduce_ex__ defers to a __reduce__ the class overrides, and takes the state from an overridden __getstate__
+        red = getattr(type(self), "__reduce__", None)
+        if red is not None and red is not object.__reduce__:
+            return red(self)
+        gs = getattr(type(self), "__getstate__", None)
+        if gs is not None and gs is not getattr(object, "__getstate__", None):
+            return (copyreg.__newobj__, (type(self),) + tuple(self.__getnewargs__()), gs(self))
         state = self.__dict__.copy()
         return (copyreg.__newobj__, (type(self),) + tuple(self.__getnewargs__()), state or None)
 
